@@ -392,6 +392,86 @@ def rule_weight_sites(F, ev, R, config, rule="R-WEIGHT-SITES"):
     R.floor(rule, config, 4 if config == "default" else 5, "build 1, basis matrix >= 1, derivative 1/2, statistics 2 (a shared helper may serve both flavours)")
 
 
+def rule_weight_uses(F, ev, R, config, rule="R-WEIGHT-USES"):
+    """who may READ the weights: in the code of the problem, its builder and the statistics the weights value is
+    only ever (a) the left operand of the row-scaling operator `&Weights * M`, (b) asked for its length (the
+    size validation), (c) copied / borrowed / formatted / handed on to another role's entry function. Any other
+    consumer (iterating the diagonal, counting non-zero weights, arithmetic on them) makes the result depend on
+    the weights other than through the row scaling."""
+    from effects import iteration_effects
+    from terms import IDENTITY
+    pr = problem_roles(F)
+    entries = role_entries(F)
+    ev = Eval(F, opaque=set(ev.opaque) | set(b.key for b in entries))
+    SIZE = ("len", "nrows", "ncols", "shape", "size", "is_empty", "shape_generic")
+    n = 0
+    for b in entries:
+        im = b.j.get("impl", {})
+        sa = im.get("self_adt")
+        me = ("param", b.key, 1)
+        if sa in (ADT_PROBLEM, ADT_PBUILDER):
+            fs = [f["name"] for f in struct_fields(F, sa) if f.get("adt") == ADT_WEIGHTS]
+            Ws = [("field", me, f) for f in fs] if b.j.get("inputs") and sa in b.j["inputs"][0] else []
+        elif sa == ADT_STATS:
+            Ws = [("param", b.key, i) for i in range(1, b.arg_count + 1) if ADT_WEIGHTS in (b.locals[i].get("ty") or "")]
+        else:
+            continue
+        if not Ws:
+            continue
+        try:
+            effs = [e for e in iteration_effects(ev, Env(b)) if e.kind == "call"]
+        except RecursionError:
+            effs = []
+        def direct(a, depth=0):
+            """the argument IS the weights value, a part of it (variant payload, the diagonal), a copy of it, or an
+            iterator / view over such a part — as opposed to a quantity computed from it by the row scaling"""
+            if a in Ws:
+                return True
+            if depth > 8:
+                return False
+            if a[0] in ("payload", "field", "as", "opt", "mutated", "elem", "drv", "index") and len(a) > 1 and isinstance(a[1], tuple):
+                return direct(a[1], depth + 1)
+            if a[0] == "call" and len(a) == 5 and a[3]:
+                if a[1] == "std::ops::Mul::mul" and a[2] in (ADT_WEIGHTS, ADT_DIAG):
+                    return False
+                nm_ = a[1].rsplit("::", 1)[-1]
+                if a[1] in IDENTITY or nm_ in ("iter", "iter_mut", "into_iter", "as_slice", "column", "rows", "enumerate", "zip", "filter", "map", "skip", "take", "cloned", "copied",
+                                               "diagonal", "as_view", "clone", "clone_owned", "unwrap", "expect"):
+                    return any(direct(x, depth + 1) for x in a[3])
+            return False
+
+        for e in effs:
+            hits = [a for a in e.args if direct(a)]
+            if not hits:
+                continue
+            n += 1
+            nm = e.name
+            ok = False
+            if e.cid == "std::ops::Mul::mul" and e.head == ADT_WEIGHTS and e.args and e.args[0] in Ws and not direct(e.args[1]):
+                ok = True
+            elif e.cid in IDENTITY or nm in ("clone", "borrow", "as_ref", "deref", "to_owned", "fmt", "clone_from") or "fmt::" in e.cid:
+                ok = True
+            elif nm in SIZE:
+                ok = True
+            elif e.cid.startswith("core::panicking") or "assert_failed" in e.cid:
+                ok = True
+            else:
+                t = e.term
+                k = t["fn"].get("resolved_key") or t["fn"].get("key") if "fn" in t else None
+                if k in F.bodies and any(x.key == k for x in entries) and all(a in Ws or not direct(a) for a in e.args):
+                    cb = F.bodies[k]
+                    crole = cb.j.get("impl", {}).get("self_adt")
+                    out = cb.j.get("output", "")
+                    # handed on unchanged to another role's entry (analysed there), or to a method of the weights that
+                    # yields a yes/no answer (size validation) or weights again — not a number or matrix derived from them
+                    ok = crole in (ADT_PROBLEM, ADT_PBUILDER, ADT_STATS, ADT_SOLVER, ADT_FITRESULT) or \
+                        (crole in (ADT_WEIGHTS, ADT_DIAG) and (out == "bool" or ADT_WEIGHTS in out or out == "()"))
+            R.add(rule, config, b.key, "use:%s" % e.cid.rsplit("::", 2)[-1][:40] if not ok else "use:%s" % nm, ok,
+                  "" if ok else "the weights are consumed by `%s(%s)`: not the row-scaling operator, a size query or a copy — the result would depend on the weights other than through row scaling"
+                  % (e.cid, ", ".join(short(a)[:40] for a in e.args)), e.term.get("span"))
+    R.floor(rule, config, 6, "row scalings in build / set_params / jacobian / statistics, size validation, accessor hand-over")
+
+
 # --------------------------------------------------------------------------- #
 # C02/C10 — who may write, no history, definite initialisation
 # --------------------------------------------------------------------------- #
